@@ -10,6 +10,7 @@ package vrt
 import (
 	"encoding/json"
 	"fmt"
+	"math/big"
 	"os"
 	"strconv"
 )
@@ -71,6 +72,9 @@ func get(name string) (int64, bool) {
 
 // Symbolic reports whether the code runs under the symbolic engine.
 func Symbolic() bool { return false }
+
+// Thorough reports the tier (VERIF_TIER=thorough natively; set by the engine symbolically).
+func Thorough() bool { return os.Getenv("VERIF_TIER") == "thorough" }
 
 func Int64(name string) int64 { v, _ := get(name); return v }
 func Int64In(name string, lo, hi int64) int64 {
@@ -139,13 +143,20 @@ func IteInt64(c bool, a, b int64) int64 {
 func Unwind(n int)          {}
 func Unreachable(label string) { Assert(false, label) }
 func Reach(label string)    {}
-func Freeze(p interface{}, why string) {}
+func Freeze(p interface{}, why string) { nativeFreeze(p, why) }
 func Observe(name string, v interface{}) {
 	if os.Getenv("VRT_OBSERVE") != "" {
 		fmt.Printf("VRT-OBS %s=%v\n", name, v)
 	}
 }
 func Concretize(v int) int { return v }
+
+// MulFits reports |a*b| < bound over mathematical integers (no wrap).
+func MulFits(a, b, bound int64) bool {
+	x := new(big.Int).Mul(big.NewInt(a), big.NewInt(b))
+	x.Abs(x)
+	return x.Cmp(big.NewInt(bound)) < 0
+}
 
 // DivFloor is floor(a/b) for b > 0 over mathematical integers.
 func DivFloor(a, b int64) int64 {
